@@ -139,11 +139,27 @@ def post_terms(st):
     return cnt, fl
 
 
+class _Alarm(BaseException):
+    pass
+
+
 def task(args):
     tkey, name, tier = args
     t_start = time.time()
+    import signal
+
+    def on_alarm(sig, frm):
+        raise _Alarm()
+    signal.signal(signal.SIGALRM, on_alarm)
+    signal.alarm(150 if tier == 'quick' else 2400)        # hard wall-clock budget per type
     try:
-        return _task(tkey, name, tier)
+        try:
+            return _task(tkey, name, tier)
+        finally:
+            signal.alarm(0)
+    except _Alarm:
+        return dict(tkey=tkey, name=name, obligations=[dict(oid=f'M/budget/{tkey}', props=['C01', 'C06', 'C07', 'C10', 'C12', 'C19'], status='undecided',
+                                                           detail='type exceeds the wall-clock budget of the proved layer in this tier')], seconds=time.time() - t_start)
     except BaseException as ex:
         return dict(tkey=tkey, name=name, obligations=[dict(oid=f'M/crash/{tkey}', props=['C01', 'C06', 'C07', 'C10', 'C12', 'C19'], status='crash',
                                                            detail=traceback.format_exc()[-800:])], seconds=time.time() - t_start)
@@ -201,11 +217,19 @@ def _task(tkey, name, tier):
             def rec(st, c, el, out):
                 res['npaths'] += 1
                 grown = [(l, l.content._xml_elements.suffix) for l in st.leaves if l.content._xml_elements.suffix]
+                # leaves created by duplicate() during the call (concrete lists)
+                root = c
+                while root.get_parent() is not None:
+                    root = root.get_parent()
+                known_ids = {id(l) for l in st.leaves}
+                for l in root._raw_traverse():
+                    if id(l) not in known_ids and M.kind(l, mods) == 'E' and len(l.content._xml_elements):
+                        grown.append((l, list(l.content._xml_elements)))
                 if out[0] == 'ok':
                     leaf = out[1]
                     good = (len(grown) == 1 and grown[0][0] is leaf and len(grown[0][1]) == 1 and grown[0][1][0] is el
                             and leaf.content.name == el.name and el.__dict__.get('parent_xsd_element') is leaf.content)
-                    if good and leaf.max_occurrences != 'unbounded':
+                    if good and leaf.max_occurrences != 'unbounded' and getattr(leaf, '_dv_idx', None) in st.cnt:
                         r, m = E.valid(st.cnt[leaf._dv_idx] + 1 <= leaf.max_occurrences)
                         good = (r == 'valid')
                     if not good and res['ok']:
@@ -272,6 +296,10 @@ def _task(tkey, name, tier):
         a_ = alpha[li] if li < len(alpha) else str(li)
         obs.append(dict(oid=f'M/remove-contract/{tkey}/{li}', props=['C06', 'C11', 'C19'], status='undecided' if uns else ('discharged' if resR['ok'] else 'violated'),
                         detail=(uns[0] if uns else resR['detail']), paths=resR['n'], model=resR['model']))
+    if not (M.dup_free(model) and M.fixed_shape(model)):
+        for o in obs:
+            o['shape_bound'] = not M.fixed_shape(model)
+        return dict(tkey=tkey, name=name, obligations=obs, seconds=round(time.time() - t_start, 1), paths=paths_total, wrapped=wrapped, invariant=None, basic=True)
     if any(o['status'] == 'undecided' for o in obs):
         # over budget already: the type is out of reach of the proved layer in this tier
         return dict(tkey=tkey, name=name, obligations=obs, seconds=round(time.time() - t_start, 1), paths=paths_total, wrapped=wrapped, invariant=None)
@@ -468,6 +496,13 @@ def eligible():
     return out
 
 
+def eligible_basic():
+    """types outside the fully proved layer: repeated names and/or repeated groups.  Families A and R only, and for repeated
+    groups only from pre-states of the TEMPLATE shape (no duplicate instance yet) -- labelled bounded-shape"""
+    full = {t for t, _ in eligible()}
+    return [(t, n) for t, n in sorted(type_elements().items()) if t not in full]
+
+
 def sweep(tier='quick', force=False, only=None):
     cdir = os.path.join(os.environ.get('VERIF_OUT') or VERIF, '.cache')
     os.makedirs(cdir, exist_ok=True)
@@ -479,7 +514,8 @@ def sweep(tier='quick', force=False, only=None):
     path = os.path.join(cdir, f'msweep-{tier}-{key}.json')
     if os.path.exists(path) and not force and only is None:
         return json.load(open(path))
-    tasks = [(t, n, tier) for t, n in eligible() if only is None or t in only]
+    basic = [(t, n) for t, n in eligible_basic() if tier != 'quick' or len(M.names_of(xsdspec.MODELS[t])) < 11]     # the big ones only in the thorough tier
+    tasks = [(t, n, tier) for t, n in eligible() + basic if only is None or t in only]
     tasks.sort(key=lambda a: -len(xsdspec.alphabet(xsdspec.MODELS[a[0]])))
     ctx = mp.get_context('fork')
     res = []
